@@ -2,16 +2,19 @@
 
 //verif:dir p2p/net/swarm
 //verif:obligation C06.d swarm shutdown waits for a connection that is still being admitted: while addConn is inside the Connected notification of a connection (slow handler), the connection is closed (by the remote, by the handler's owner, or not at all) and Swarm.Close's final wait on the swarm's references starts: the wait does not return before the connection's Connected notification has returned, its Disconnected notification has been delivered and its accept loop has ended - so an admitted connection is never left without its notifications by a shutdown that overtook it - and it does return once they have
+//verif:obligation C06.e every call of the real Swarm.Close - also a second call that overlaps a Close still waiting for a slow Disconnected handler - returns only after Disconnected has been delivered; the event emitter is closed exactly once
 //verif:bound one connection, one slow Connected handler; cooperative schedule with the handler parked at an explicit gate
 //verif:stub transport connection stub whose AcceptStream fails once the connection is closed; event emitter stub; the real connection events emitter, addConn, Conn.start, Conn.Close
 //verif:outside preemption inside addConn between its critical sections, several connections at once
 package swarm
 
 import (
+	"context"
 	"errors"
 
 	"github.com/libp2p/go-libp2p/core/network"
 	"github.com/libp2p/go-libp2p/core/peer"
+	"github.com/libp2p/go-libp2p/core/transport"
 )
 
 type vC06dTc struct {
@@ -88,4 +91,50 @@ func VerifC06dCloseWaitsForAdmission() {
 	vAssert(disconnected, "the connection's Disconnected notification is delivered")
 	vAssert(waited, "shutdown returns once the notifications are delivered and the accept loop has ended")
 	s.connectionEventsEmitter.Close()
+}
+
+type vC06eBusEmitter struct{ closed int }
+
+func (e *vC06eBusEmitter) Emit(interface{}) error { return nil }
+func (e *vC06eBusEmitter) Close() error           { e.closed++; return nil }
+
+// Every call of Swarm.Close - also one that overlaps a Close already in progress - returns only after the
+// notifications have been delivered.
+func VerifC06eOverlappingClose() {
+	vDeadlockIsViolation()
+	ctx, cancel := context.WithCancel(context.Background())
+	bus := &vC06eBusEmitter{}
+	s := &Swarm{peers: vC06ps{}, ctx: ctx, ctxCancel: cancel, emitter: bus}
+	s.conns.m = map[peer.ID][]*Conn{}
+	s.listeners.m = map[transport.Listener]struct{}{}
+	s.transports.m = map[int]transport.Transport{}
+	s.directConnNotifs.m = map[peer.ID][]chan struct{}{}
+	gate := make(chan struct{})
+	disconnected, inDisconnected := false, false
+	s.connectionEventsEmitter = newConnectionEventsEmitter(func(peer.ID) network.Connectedness { return network.NotConnected }, &vC06emitter{},
+		func(c *Conn) {}, func(c *Conn) {
+			inDisconnected = true
+			<-gate // a slow Disconnected handler
+			disconnected = true
+		})
+	tc := &vC06dTc{vC06tc: vC06tc{p: "peerA"}, closedCh: make(chan struct{})}
+	_, err := s.addConn(tc, network.DirInbound)
+	vAssert(err == nil, "connection admitted")
+	settle := func() {
+		for i := 0; i < 30; i++ {
+			vYield()
+		}
+	}
+	settle()
+	aDone, bDone := false, false
+	go func() { s.Close(); aDone = true }()
+	settle()
+	vAssert(inDisconnected && !aDone, "harness: the first Close is waiting for the Disconnected handler")
+	go func() { s.Close(); bDone = true }()
+	settle()
+	vAssert(!bDone, "an overlapping Close call does not return before the notifications have been delivered")
+	close(gate)
+	settle()
+	vAssert(disconnected && aDone && bDone, "both Close calls return once Disconnected has been delivered")
+	vAssert(bus.closed == 1 && tc.closes >= 1, "the event emitter is closed once, the connection is closed")
 }
